@@ -750,7 +750,7 @@ def gen_cases(ctx, reserved):
     rng = ctx.rng
     cases = []
     sers = ["serpent", "serpent", "serpent", "json", "marshal", "msgpack"]
-    for _ in range(ctx.n(140, 1000)):
+    for _ in range(ctx.n(110, 1000)):
         shape = gen_shape(rng)
         ser = rng.choice(sers)
         cases.append({"kind": "shape", "shape": shape, "ser": ser, "reqs": gen_requests(rng, shape, ser, reserved, rng.choice([10, 16, 24]))})
